@@ -187,6 +187,8 @@ def main(pid="C02"):
         else:
             tasks.append((d,))
     chk.extra["fork_tasks"] = len(tasks)
+    for r in C.run_named_tasks("harness.tables4", [("task_tables", (0,))]):
+        chk.absorb_dict(r)
     results = C.run_tasks(fork, tasks)
     for r in results:
         chk.absorb_dict(r)
@@ -201,6 +203,7 @@ def main(pid="C02"):
     chk.outside = ["non-canonical field order (C05)", "strings outside the grammar (C04)"]
     chk.assumptions = [
         "pysymex interprets the Python subset faithfully (validated against the real library on simulation patterns in every fork)",
+        "highest-severity vectors and depths of the oracle are re-derived in every run from the EQ definitions (harness/tables4.py: Pareto-maximal members, largest distance + 1) and compared with the oracle's typed tables and with MAX_COMPOSED / MAX_SEVERITY of the current source",
         "the 270 lookup scores in /verif/spec/cvss4_lookup.py are a pinned copy of the pinned commit's table (no independent derivation exists); everything else in the oracle is typed from the specification, in exact rational arithmetic",
         "float arithmetic at the leaves is CPython's own (the claim includes that float + EPSILON + half-up equals exact half-up)",
     ]
